@@ -641,7 +641,7 @@ fn rfc_next(s: u8, ev: u8, delay_open: bool, dop_running: bool) -> Option<u8> {
             14 | 16 | 17 => OPENCONFIRM,
             15 => OPENCONFIRM,
             18 | 25 | 24 => IDLE,
-            19 => return None,
+            19 => IDLE, // collision detection: the only next state the RFC names for Event 19 here
             21 | 22 | 23 => IDLE,
             26 => ESTABLISHED,
             _ => IDLE,
@@ -651,7 +651,7 @@ fn rfc_next(s: u8, ev: u8, delay_open: bool, dop_running: bool) -> Option<u8> {
             2 | 8 | 10 => IDLE,
             11 => ESTABLISHED,
             14 | 15 | 16 | 17 => ESTABLISHED,
-            19 => return None,
+            19 => IDLE, // collision detection, as above
             23 | 24 | 25 | 18 => IDLE,
             26 | 27 => ESTABLISHED,
             28 => IDLE,
@@ -678,12 +678,11 @@ fn rfc_notif(s: u8, ev: u8) -> Option<(u8, Option<u8>)> {
 fn gen_is_todo(s: u8, k: u8, dop: bool, n: bool, x: bool) -> bool {
     match (s, k) {
         (1, 0) | (1, 2) => true,
-        (2, 5) | (2, 20) | (2, 13) | (2, 14) | (2, 15) => true,
+        (2, 5) | (2, 13) | (2, 14) => true,
         (2, 11) => dop,
         (3, 5) => x,
         (3, 13) | (3, 14) => n,
         (4, 9) | (4, 10) | (5, 9) | (5, 10) | (6, 9) | (6, 10) => true,
-        (5, 12) | (6, 12) => true,
         _ => false,
     }
 }
